@@ -432,7 +432,7 @@ impl Prop for C09 {
         }
     }
     fn rule(&self) -> String {
-        "cases are encodings. [rle16] every sequence of <=3 interleaved-RLE orders (<=4 for shapes up to 4 pixels in thorough) over {all 12 order kinds} x {short, extended, mega-mega forms} x {every run length that fits} x palette {0,0xFFFF,0x1234} that the reference decoder maps onto a complete image of the shape (shapes up to 6 px; larger shapes with <=2 orders to reach extended forms / special orders); [planar32] every plane vector over {0,1,7F,80,FF} for shapes up to 2x2/4x1 x every segmentation of every scan line (one line varied at a time, plus all together), and wide lines (widths 16..141 around the 16/32/47-pixel run escapes and their multiples; constant, flat-zero, opaque-black and patterned images x 8 segmentation strategies) for the long-run escapes; [rle16-encoded] 14 structured image patterns x 8 sizes up to 64x64 x 10 deterministic strategies of a greedy reference encoder (order kinds allowed, preferred spelling, run-length cap); large images whose pixel count passes 2^15 / 2^16 or whose side is 65535, in all four formats; [raw16]/[raw32] bottom-up uncompressed layouts; [widen565] all 65536 colours. Non-trivial: >=2 orders or a non-default segmentation or >=2 rows. Every case is decoded under its full destination rectangle and again under 2..6 other rectangles (a single cell, narrower than the buffer, inverted, 65535-wide, one row): the pixels must not depend on the rectangle. Compressed cases of up to 2^16 pixels are also decoded through the public rle_16_decompress / rle_32_decompress into a buffer pre-filled with 0xAA: same pixels.".into()
+        "cases are encodings. [rle16] every sequence of <=3 interleaved-RLE orders (<=4 for shapes up to 4 pixels in thorough) over {all 12 order kinds} x {short, extended, mega-mega forms} x {every run length that fits} x palette {0,0xFFFF,0x1234} that the reference decoder maps onto a complete image of the shape (shapes up to 6 px; larger shapes with <=2 orders to reach extended forms / special orders); [planar32] every plane vector over {0,1,7F,80,FF} for shapes up to 2x2/4x1 x every segmentation of every scan line (one line varied at a time, plus all together), and wide lines (widths 16..141 around the 16/32/47-pixel run escapes and their multiples; constant, flat-zero, opaque-black and patterned images x 8 segmentation strategies) for the long-run escapes; [rle16-encoded] 14 structured image patterns x 8 sizes up to 64x64 x 10 deterministic strategies of a greedy reference encoder (order kinds allowed, preferred spelling, run-length cap); large images whose pixel count passes 2^15 / 2^16 or whose side is 65535, in all four formats; [raw16]/[raw32] bottom-up uncompressed layouts; [widen565] all 65536 colours. Non-trivial: >=2 orders or a non-default segmentation or >=2 rows. Every case is decoded under its full destination rectangle and again under 2..6 other rectangles (a single cell, narrower than the buffer, inverted, 65535-wide, one row): the pixels must not depend on the rectangle; then the same bytes are decoded under the transposed shape (same pixel count, same rectangle) and judged wherever the reference maps them onto a complete image of that shape, then the stream cut at 1/2, 3/4 and before its last byte is decoded (whatever that returns), and the case itself is decoded after all that. Compressed cases of up to 2^16 pixels are also decoded through the public rle_16_decompress / rle_32_decompress into a buffer pre-filled with 0xAA: same pixels.".into()
     }
     fn assumptions(&self) -> Vec<String> {
         vec![
@@ -516,6 +516,42 @@ impl Prop for C09 {
                     let short = kind.split('-').next().unwrap_or("").to_string();
                     return Outcome::fail("mismatch", format!("{}-depends-on-the-destination-rectangle", short), format!("{}: {}x{} with destination rectangle #{} ({},{})-({},{}): {}", kind, w, h, ri, dl, dt, dr, db, match other { Ok(v) => format!("{} bytes, differing from the reference", v.len()), Err(e) => format!("{:?}", e) }));
                 }
+            }
+        }
+        // the same bytes under the transposed shape (same pixel count, same destination rectangle), right after the decodes
+        // above: they are decoded on their own terms (the first scan line is as long as the shape says), whatever was
+        // decoded before; judged where the reference maps them onto a complete image of that shape
+        if w != h && w > 0 && h > 0 && (w as usize) * (h as usize) <= 4096 {
+            let (w2, h2) = (h, w);
+            let want2: Option<Vec<u8>> = if compress && bpp == 16 {
+                match rle::decode16(&data, w2 as usize, h2 as usize) {
+                    Decoded::Image(i) => Some(rle::image16_to_bgra(&i)),
+                    _ => None,
+                }
+            } else if compress {
+                rle::planar_decode(&data, w2 as usize, h2 as usize).ok()
+            } else if bpp == 32 {
+                Some(data.chunks(w2 as usize * 4).rev().flat_map(|r| r.iter().copied()).collect())
+            } else {
+                None
+            };
+            if let Some(want2) = want2 {
+                let ev = BitmapEvent { dest_left: 0, dest_top: 0, dest_right: w.wrapping_sub(1), dest_bottom: h.wrapping_sub(1), width: w2, height: h2, bpp, is_compress: compress, data: data.clone() };
+                match ev.decompress() {
+                    Ok(v) if v == want2 => {}
+                    other => {
+                        let short = kind.split('-').next().unwrap_or("").to_string();
+                        return Outcome::fail("mismatch", format!("{}-wrong-pixels-under-the-transposed-shape", short), format!("{}: the bytes of a {}x{} image decoded as {}x{} right after (same destination rectangle): {}", kind, w, h, w2, h2, match other { Ok(v) => format!("{} bytes, differing from the reference at byte {}", v.len(), v.iter().zip(want2.iter()).position(|(a, b)| a != b).unwrap_or(v.len().min(want2.len()))), Err(e) => format!("{:?}", e) }));
+                    }
+                }
+            }
+        }
+        // and after decodes that fail half-way: the same stream cut in the middle, at three quarters and before its last
+        // byte (whatever they return), then the case itself: nothing of a refused stream may show in the next image
+        if compress && (w as usize) * (h as usize) <= 4096 && data.len() >= 2 {
+            for cut in [data.len() / 2, data.len() * 3 / 4, data.len() - 1] {
+                let ev = BitmapEvent { dest_left: 0, dest_top: 0, dest_right: w.wrapping_sub(1), dest_bottom: h.wrapping_sub(1), width: w, height: h, bpp, is_compress: true, data: data[..cut].to_vec() };
+                let _ = ev.decompress();
             }
         }
         let data2 = if compress { data.clone() } else { vec![] };
